@@ -451,6 +451,7 @@ class GroupBase(ListBase):
 
 @register
 class UnorderedTaskGroup(GroupBase):
+    lifts = True  # element-wise meaning: holds for every list length once the loops are independent (contracts/loops.py)
     target = "task_constraint.UnorderedTaskGroup.__init__"
     inlines = TCBase.inlines + ("task_constraint.TaskGroup.__init__",)
     ordered = False
@@ -458,6 +459,7 @@ class UnorderedTaskGroup(GroupBase):
 
 @register
 class OrderedTaskGroup(GroupBase):
+    lifts = True  # element-wise meaning: holds for every list length once the loops are independent (contracts/loops.py)
     target = "task_constraint.OrderedTaskGroup.__init__"
     inlines = TCBase.inlines + ("task_constraint.TaskGroup.__init__",)
     ordered = True
@@ -465,6 +467,7 @@ class OrderedTaskGroup(GroupBase):
 
 @register
 class ScheduleNTasksInTimeIntervals(ListBase):
+    lifts = True  # element-wise meaning: holds for every list length once the loops are independent (contracts/loops.py)
     target = "task_constraint.ScheduleNTasksInTimeIntervals.__init__"
     bounded = "2..3 tasks x 1..2 intervals (quick) / up to 4 tasks x 3 intervals (thorough); all integers symbolic"
 
@@ -605,6 +608,7 @@ class OptionalTasksDependency(OptRuleBase):
 
 @register
 class ForceScheduleNOptionalTasks(OptRuleBase):
+    lifts = True  # element-wise meaning: holds for every list length once the loops are independent (contracts/loops.py)
     target = "task_constraint.ForceScheduleNOptionalTasks.__init__"
     bounded = "lists of 2..3 tasks (quick) / 2..4 (thorough); the count n is symbolic"
 
